@@ -86,7 +86,7 @@ def handle : List String → Option String
     let content ← content.toNat?
     let H : List Nat → Nat := fun l => match l with | [] => 0 | [x] => x | _ => 999999
     let S : Copia.HubConc.Sys := { H := H, staging := fun _ => false, tmpOf := fun i p => 1000 + 10 * i + p,
-                                   cname := fun _ _ => 2000,
+                                   cname := fun _ _ _ => 2000,
                                    req := fun _ => { dst := 0, expected := expected, chunks := if content = 0 then [] else [content], declared := declared } }
     let s0 : Copia.HubConc.State := { dir := fun p => if p = 0 then cur.map (fun _ => 0) else none,
                                       ino := fun n => if n = 0 then (match cur with | some c => if c = 0 then [] else [c] | none => []) else [],
@@ -98,10 +98,18 @@ def handle : List String → Option String
     let t ← parseTree hub
     let cl ← (clients.splitOn "|").mapM parseTree
     let sc ← (if sched = "-" then some [] else (sched.splitOn ",").mapM String.toNat?)
-    let cname := fun (k : List (List Char)) (h : List Nat) =>
+    -- the repaired hub's choice: `<k>.conflict-<12 hex>`, then `-1`, `-2`, … until free or holding the same content
+    let cand := fun (k : List (List Char)) (h : List Nat) (n : Nat) =>
+      let sfx := (".conflict-" ++ hexN h).toList ++ ccSuffix n
       match k.reverse with
-      | [] => [(".conflict-" ++ hexN h).toList]
-      | last :: rest => rest.reverse ++ [last ++ (".conflict-" ++ hexN h).toList]
+      | [] => [sfx]
+      | last :: rest => rest.reverse ++ [last ++ sfx]
+    let cname := fun (t : HTree) (k : List (List Char)) (h : List Nat) =>
+      let rec go (fuel n : Nat) : List (List Char) :=
+        match fuel with
+        | 0 => cand k h n
+        | fuel+1 => if occupied t (cand k h n) && decide (hget t (cand k h n) ≠ some h) then go fuel (n+1) else cand k h n
+      go (t.length + 1) 0
     let s0 : Copia.HubMulti.Sys (List Nat) := { hub := t, clients := fun i => { files := cl.getD i [], listing := none } }
     let r := Copia.HubMulti.run (fun b => b) cname s0 sc
     let tr := (r.hub.map fun (k, v) => (compsStr k, hexN v)).mergeSort fun a b => a.1 ≤ b.1
